@@ -14,9 +14,10 @@ TARGETS = {
 
 CHECKS = {
     "C20": dict(
+        promote=True,   # thorough bounds cost seconds: used for the quick tier as well
         level="model_checking",
         runs=[dict(name="wipe", target="h_wipe", args=[], quick=[], thorough=[])],
-        deadline=dict(quick=100, thorough=600),
+        deadline=dict(quick=150, thorough=600),
         explanation=("states/transitions: hash = explicit-state search (engine/es.h) over (history, raw context bytes), one real Update/Final per edge; "
                      "aes/aesctr/keys = nodes and API calls of the history trees; dh = allocator events observed by the monitor during each call. "
                      "traces = complete histories ending in Final / free / return, each judged by the wipe oracle."),
